@@ -151,13 +151,29 @@ def check(run, replay=None):
         quick = run.tier == "quick"
         rounds = 12 if quick else 120
         layer_kernels(run, "asan", dict(mode="asan", seed=run.seed, rounds=rounds, threads=[1, 4] if quick else [1, 4, 64]), tmp)
-        layer_kernels(run, "vrt", dict(mode="vrt", seed=run.seed, rounds=rounds,
+        layer_kernels(run, "vrt", dict(mode="vrt", seed=run.seed, rounds=rounds, directed_runs=1 if quick else 3,
                                        threads=[[1, 0], [4, 1], [3, 4]] if quick else [[1, 0], [4, 1], [3, 4], [64, 1], [8, 4]]), tmp)
         # one thread: OpenMP float reductions combine in completion order, so multi-threaded runs differ in the last bit
         # from run to run for reasons that have nothing to do with the buffer content (DESIGN.md Corrections)
         layer_kernels(run, "poison", dict(mode="poison", seed=run.seed, rounds=rounds, threads=[1]), tmp)
         if replay is None:
             layer_asan_module(run, tmp, run.tier)
+            # ThreadSanitizer inventory of the OpenMP kernels (pthread GOMP shim): evidence, not a verdict - the property
+            # speaks about address and undefined-behaviour sanitizers; schedule-dependence of results is decided in C01/C06/
+            # C07/C11/C13
+            inv = {}
+            for kern in ("score_and_assign", "connectedpixels", "compute_gv", "localmaxlabel"):
+                env = dict(os.environ)
+                env["PYTHONPATH"] = VERIF
+                env.pop("LD_PRELOAD", None)
+                try:
+                    p = run_child([PY, "-m", "vlib.tsan_inventory", kern, "3" if quick else "30", str(run.seed)], env, 1200)
+                    inv[kern] = json.loads(p.stdout.decode().strip().splitlines()[-1])
+                    run.count("tsan_inventory_runs", inv[kern].get("runs", 0))
+                    run.count("tsan_inventory_reports", inv[kern].get("reports", 0))
+                except Exception as e:
+                    inv[kern] = "failed: %s" % e
+            run.extra["tsan_race_inventory"] = inv
         run.require_counter("asan_calls", 200)
         run.require_counter("vrt_accesses_checked", 10000)
         run.require_counter("outputs_checked_for_definedness", 100)
